@@ -4695,3 +4695,70 @@ impl IceServerUri {
         }
     }
 }
+
+// Verification hooks (compiled only with `--cfg rustrtc_verif`): drive the private inbound packet
+// handlers of an `IceTransport` in-process and read/seed the private state they act on (C06, C16).
+#[cfg(rustrtc_verif)]
+impl IceTransport {
+    /// `handle_packet` as the socket read loops call it.
+    pub async fn verif_handle_packet(&self, packet: &[u8], addr: SocketAddr, sender: IceSocketWrapper) {
+        let mut marshal_buf = Vec::new();
+        handle_packet(packet, addr, self.inner.clone(), sender, &mut marshal_buf).await;
+    }
+    /// `handle_turn_packet` as the TURN read loop calls it.
+    pub async fn verif_handle_turn_packet(
+        &self,
+        packet: &[u8],
+        client: &Arc<TurnClient>,
+        relayed_addr: SocketAddr,
+    ) {
+        let mut marshal_buf = Vec::new();
+        Self::handle_turn_packet(packet, &self.inner, client, relayed_addr, &mut marshal_buf).await;
+    }
+    /// Register an outstanding transaction exactly as `perform_binding_check` does.
+    pub fn verif_add_pending(&self, tx_id: [u8; 12]) -> oneshot::Receiver<StunDecoded> {
+        let (tx, rx) = oneshot::channel();
+        self.inner.pending_transactions.lock().insert(tx_id, tx);
+        rx
+    }
+    pub fn verif_pending_ids(&self) -> Vec<[u8; 12]> {
+        let mut v: Vec<[u8; 12]> = self.inner.pending_transactions.lock().keys().cloned().collect();
+        v.sort();
+        v
+    }
+    pub fn verif_set_state(&self, state: IceTransportState) {
+        let _ = self.inner.state.send(state);
+    }
+    pub fn verif_nomination_complete(&self) -> Option<bool> {
+        *self.inner.nomination_complete.borrow()
+    }
+    pub fn verif_set_nomination_complete(&self, v: Option<bool>) {
+        let _ = self.inner.nomination_complete.send(v);
+    }
+    /// Install a local candidate + its UDP socket as the gatherer does for a host candidate.
+    pub fn verif_add_local_udp(&self, candidate: IceCandidate, socket: Arc<UdpSocket>) {
+        self.inner.gatherer.sockets.lock().push(socket);
+        self.inner.gatherer.local_candidates.lock().push(candidate);
+    }
+    pub fn verif_add_local_candidate(&self, candidate: IceCandidate) {
+        self.inner.gatherer.local_candidates.lock().push(candidate);
+    }
+    pub fn verif_add_remote_candidate_quiet(&self, candidate: IceCandidate) {
+        self.inner.remote_candidates.lock().push(candidate);
+    }
+    pub fn verif_set_selected_pair(&self, pair: Option<IceCandidatePair>) {
+        *self.inner.selected_pair.lock() = pair;
+    }
+    pub fn verif_selected_socket_kind(&self) -> Option<String> {
+        self.inner._socket_rx_keeper.borrow().as_ref().map(|s| match s {
+            IceSocketWrapper::Udp(_) => "udp".to_string(),
+            IceSocketWrapper::SharedUdp(_) => "shared-udp".to_string(),
+            IceSocketWrapper::TcpListener(_) => "tcp-listener".to_string(),
+            IceSocketWrapper::TcpStream(_, _, p) => format!("tcp-stream:{p}"),
+            IceSocketWrapper::Turn(_, a) => format!("turn:{a}"),
+        })
+    }
+    pub fn verif_buffered_packets(&self) -> Vec<(Vec<u8>, SocketAddr)> {
+        self.inner.buffered_packets.lock().iter().cloned().collect()
+    }
+}
